@@ -38,6 +38,20 @@ def history_calls(kind, hist):
     return calls
 
 
+def thread_race_cases():
+    from checks import scenarios
+    out = []
+    for kind in ("file", "dir"):
+        for api in ("rust", "c"):
+            for fname, feat in scenarios.FEATS:
+                fl = ACC["RDONLY"] | O["NONBLOCK"]
+                out.append(dict(id="threadrace|%s|%s|%s" % (kind, api, fname), tree=TREE, feat=feat, trace=False, raw=True, cold=True,
+                                calls=[dict(op="reopen_threads", path="d/t_" + kind, oflags=fl, api=api, threads=6)],
+                                meta=dict(g=dict(kind=kind, acc="RDONLY", extra="", num=999, hist="concurrent first use by 6 threads", expect=dict(ok=True, ino=1)),
+                                          api=api, backend=fname, oflags=fl, race=True, threads=6, scenario="reopen-threads-" + api, feat=fname)))
+    return out
+
+
 def main(tier_):
     t0 = time.time()
     quick = tier_ == "quick"
@@ -98,6 +112,9 @@ def main(tier_):
                               calls=[dict(op="reopen_in_thread", path="d/t_" + kind, decoy="root/decoy", oflags=fl)],
                               meta=dict(g=dict(kind=kind, acc="RDONLY", extra="", num=999, hist="thread-private-fd-table, host /proc replaced by a tmpfs with only 'self'", expect=dict(ok=True, ino=1)),
                                         api="rust", backend=fname, oflags=fl, thread=True)))
+    # concurrent first use: K threads of a process that has not touched the global procfs handle yet reopen one handle at once
+    for c in thread_race_cases():
+        cases.append(c)
     # the O_NOCTTY half of "plus O_CLOEXEC|O_NOCTTY": a session leader without controlling terminal reopens a pty slave
     for api in ("rust", "c"):
         for fname, feat in scenarios.FEATS[:2]:
@@ -131,6 +148,27 @@ def main(tier_):
                 if x.get("ctty"):
                     v.violation(dict(check="reopen-tty", what="controlling terminal acquired", api=c["meta"]["api"]),
                                 "C09: reopen(O_RDWR) of a pty slave by a session leader without controlling terminal made it the controlling terminal [%s API, %s]: the reopen lacks O_NOCTTY" % (c["meta"]["api"], c["meta"]["backend"]), c)
+            continue
+        if c["meta"].get("race"):
+            stats["cases"] += 1
+            outs = x.get("threads") or []
+            h = x.get("handle") or {}
+            if len(outs) != c["meta"]["threads"] or not h.get("ok"):
+                v.violation(dict(check="reopen-threads", what="abnormal"), "C09: concurrent first-use case did not run: %s" % json.dumps(x)[:300], c)
+            for t, o in enumerate(outs):
+                p = None
+                if o.get("panic"):
+                    p = "panicked"
+                elif not o.get("ok"):
+                    p = "failed with %s" % (lib_outcome(o),)
+                elif (o.get("rawdev"), o.get("rawino")) != (h.get("rawdev"), h.get("rawino")):
+                    p = "returned inode %s, the handle refers to inode %s" % (o.get("rawino"), h.get("rawino"))
+                elif not o.get("cloexec"):
+                    p = "not close-on-exec"
+                if p:
+                    v.violation(dict(check="reopen-threads", what=p.split(",")[0][:40], api=c["meta"]["api"], backend=c["meta"]["backend"]),
+                                "C09: %d threads reopen one %s handle at the same moment as the process's first use of the library's procfs handle [%s API, %s]: thread %d %s" % (
+                                    c["meta"]["threads"], g["kind"], c["meta"]["api"], c["meta"]["backend"], t, p), c)
             continue
         if c["meta"].get("thread"):
             h = x.get("handle") or {}
